@@ -82,7 +82,8 @@ HIST_RULE = ("random histories over a small universe built to collide: <=5 Clust
              "non-trivial if it contains a node PATCH and a failed item or a node deletion; distinct by its event list. Violations are judged only "
              "inside the property's envelope (DESIGN 3.5); counts of out-of-envelope histories are reported under outside_envelope. "
              "Stream 'frag' (C01, C02, C04, C05, C06, C08): random histories inside the fragment the Lean history theorems quantify over (disjoint ClusterCIDR ranges, one start, "
-             "no label edits, no foreign pod CIDRs, node writes ok/fail only, delete notifications with the final state); there the judge runs with no envelope")
+             "no label edits, no foreign pod CIDRs, node writes ok/fail only, delete notifications with the final state); there the judge runs with no envelope. "
+             "Stream 'fragboot' (C01, C03, C04): the same with restarts at any instant and frequent lingering node deletions, also judged with no envelope")
 
 # ---------------------------------------------------------------- property table
 
@@ -99,12 +100,12 @@ PROPS = {
     "C19": dict(mod="IpamVerif.Props.C19", engine="pool", streams=[("pool", "pool", proj_c19)], judge=("pool", {"C19"}),
                 rule="same histories as C14; the four series are read from the metric vectors after every call, the /metrics handler is "
                      "served once per run; a case = one pool history, non-trivial if >= 2 successful state-changing calls, distinct by operation list"),
-    "C01": dict(mod="IpamVerif.Props.C01", engine="hist", streams=[("hist", "hist", make_proj(["patches"], "full", api=True)), ("restart", "hist", make_proj(["patches"], "full", api=True)), ("frag", "hist", make_proj(["res", "patches", "ccw"], "full", api=True))],
+    "C01": dict(mod="IpamVerif.Props.C01", engine="hist", streams=[("hist", "hist", make_proj(["patches"], "full", api=True)), ("restart", "hist", make_proj(["patches"], "full", api=True)), ("frag", "hist", make_proj(["res", "patches", "ccw"], "full", api=True)), ("fragboot", "hist", make_proj(["res", "patches", "ccw"], "full", api=True))],
                 judge=("hist", {"C01"}), rule=HIST_RULE),
     "C02": dict(mod="IpamVerif.Props.C02", engine="hist", streams=[("hist", "hist", make_proj(["patches"], "nocursor")), ("frag", "hist", make_proj(["res", "patches", "ccw"], "full", api=True))], judge=("hist", {"C02"}), rule=HIST_RULE),
-    "C03": dict(mod="IpamVerif.Props.C03", engine="hist", streams=[("restart", "hist", make_proj(["res", "patches", "ccw"], "full", api=True, view=True))],
+    "C03": dict(mod="IpamVerif.Props.C03", engine="hist", streams=[("restart", "hist", make_proj(["res", "patches", "ccw"], "full", api=True, view=True)), ("fragboot", "hist", make_proj(["res", "patches", "ccw"], "full", api=True))],
                 judge=("hist", {"C03"}), rule=HIST_RULE + "; profile 'restart': a restart after every eighth event and, with probability 1/2, right after a lost (crash after the write) or failed (crash before the write) API write"),
-    "C04": dict(mod="IpamVerif.Props.C04", engine="hist", streams=[("hist", "hist", make_proj(["patches"], "nocursor", api=True)), ("frag", "hist", make_proj(["res", "patches", "ccw"], "full", api=True))], judge=("hist", {"C04"}), rule=HIST_RULE),
+    "C04": dict(mod="IpamVerif.Props.C04", engine="hist", streams=[("hist", "hist", make_proj(["patches"], "nocursor", api=True)), ("frag", "hist", make_proj(["res", "patches", "ccw"], "full", api=True)), ("fragboot", "hist", make_proj(["res", "patches", "ccw"], "full", api=True))], judge=("hist", {"C04"}), rule=HIST_RULE),
     "C05": dict(mod="IpamVerif.Props.C05", engine="hist", streams=[("hist", "hist", make_proj(["res", "patches", "events", "nq"], "full")), ("frag", "hist", make_proj(["res", "patches", "ccw"], "full", api=True))], judge=("hist", {"C05"}), rule=HIST_RULE),
     "C06": dict(mod="IpamVerif.Props.C06", engine="hist", streams=[("hist", "hist", make_proj(["patches", "ccw"], "nocursor", api=True)), ("frag", "hist", make_proj(["res", "patches", "ccw"], "full", api=True))], judge=("hist", {"C06"}), rule=HIST_RULE),
     "C07": dict(mod="IpamVerif.Props.C07", engine="hist", streams=[("order", "hist", make_proj(["patches"], "full")), ("hist", "hist", make_proj(["patches"], "full"))], judge=("hist", {"C07"}),
@@ -417,7 +418,7 @@ def correspond(res, spec):
                 allv, allo = pickle.load(open(jc, "rb"))
             else:
                 # inside the fragment of the Lean history theorems nothing is excused: no envelope
-                allv, allo = judge_hist.judge(ops, impl, judge_hist.ALL, ignore_envelope=(stream == "frag"))
+                allv, allo = judge_hist.judge(ops, impl, judge_hist.ALL, ignore_envelope=(stream in ("frag", "fragboot")))
                 try:
                     pickle.dump((allv, allo), open(jc, "wb"))
                 except OSError:
